@@ -6,10 +6,11 @@ open Aqv Aqv.Proto Aqv.Tx
   Model driver for C06. Case kinds (see go/harness/cmd/c06/main.go):
     ig  <nz> <z> <create> <homestead>
     gp  a<n>,s<n>,...
+    srd <cumulative gas of the receipts of one block, as served by a fast-synced node>     → their per-transaction GasUsed
     msg <hs> <byz> <cb> <gp> <from> <c|t> <nonce> <check> <price> <gas> <value> <nz> <z> <pre> <evm>
     blk <hs> <byz> <cb> <gasLimit> <pre> <tx>...        tx = from:c|t:nonce:price:gas:value:nz:z:evm
   `pre`/`post` = b0,n0;b1,n1;b2,n2;b3,n3 (tracked accounts: three senders and the dedicated coinbase).
-  `evm` = na | skip | coll | f~gasLeft~(n|i|r|o)~refundCounter~b0,n0;...   — what the real EVM left behind at depth 0.
+  `evm` = na | skip | coll | f~gasLeft~(n|i|r|o)~refundAdded~b0,n0;...   — what the real EVM left behind at depth 0.
 -/
 
 /-- the EVM oracle of one transaction. -/
@@ -55,7 +56,8 @@ def oracleRun (orc : Msg → Oracle) (m : Msg) (g : Nat) (w : W) : EvmOut Nat :=
     | .na | .skip => { world := w, gasLeft := g, err := none }
     | .coll => { world := setNonce w m.sender (nonceInc (lookup w.nonce m.sender)), gasLeft := 0, err := some .other }
     | .fired gl e rf obs =>
-      { world := { bal := setAll w.bal (obs.map (·.1)), nonce := setAll w.nonce (obs.map (·.2)), rest := rf }, gasLeft := gl, err := e }
+      -- `rf` = what the EVM ADDED to the refund counter (AddRefund; journalled, so 0 after a failure)
+      { world := { bal := setAll w.bal (obs.map (·.1)), nonce := setAll w.nonce (obs.map (·.2)), rest := w.rest + rf }, gasLeft := gl, err := e }
 
 def mkEnv (orc : Msg → Oracle) (cb : Nat) (hs byz : Bool) : Env Nat :=
   { run := oracleRun orc, refund := fun w => w.rest, fin := fun w => { w with rest := 0 }, coinbase := cb, homestead := hs, byzantium := byz }
@@ -227,6 +229,11 @@ def handle (l : String) : String :=
       verdict m go false "intrinsic-gas-formula"
     | _, _ => "bad-op\tagree"
   | ["gp", script] => handleGp script go
+  | ["srd", cums] =>
+    -- per-transaction gas the fast-sync path must record: differences of the cumulative values (core.SetReceiptsData)
+    match (cums.splitOn ",").mapM nat? with
+    | some cs => verdict (",".intercalate ((setReceiptsData_spec 0 cs).map toString)) go false "receipt-gasUsed-is-not-the-cumulative-difference"
+    | none => "bad-op\tagree"
   | "msg" :: rest => handleMsg rest go
   | "blk" :: rest => handleBlk rest go
   | _ => "bad-op\tagree"
